@@ -60,3 +60,26 @@ Lemma ex_accept_rearmed :
           (fun st => existsb (fun t => at_select (sys_1 skel Accepter false) t && timer_follows t &&
                                        match lrd (sh st) with DFuture => true | _ => false end) (ths st)).
 Proof. apply found_reaches; vm_cast_no_check (eq_refl true). Qed.
+
+(* non-vacuity of the several-callers deadline-change statement: ONE deadline change is pending at
+   BOTH parked callers at once - each is parked in its select with `<-changed` ready and a timer
+   still armed for the replaced deadline.  (With one wake-up token this state did not exist: only
+   one caller could be told.) *)
+Definition ex_change_pending_all (d : sysdef) (st : state) : bool :=
+  forallb (fun t => at_select d t && changed_pending t &&
+                    match tm (lc t) with TRun _ _ false => true | _ => false end) (ths st).
+Lemma ex_change_multi : forall c, reaches (sys_change_n skel c 2 false false) (ex_change_pending_all (sys_change_n skel c 2 false false)).
+Proof. intros []; apply found_reaches; vm_cast_no_check (eq_refl true). Qed.
+
+(* ... and afterwards both are parked again, nothing pending, each on a timer armed for the deadline
+   stored now, which then expires: the hypotheses of inv_deadline_seen / inv_expiry_returns *)
+Definition ex_change_followed_all (d : sysdef) (st : state) : bool :=
+  forallb (fun t => at_select d t && negb (wake_pending t (sh st)) &&
+                    match dl_of t (sh st), tm (lc t) with DPast, TRun _ true true => true | _, _ => false end) (ths st).
+Lemma ex_change_followed : forall c, reaches (sys_change_n skel c 2 false false) (ex_change_followed_all (sys_change_n skel c 2 false false)).
+Proof. intros []; apply found_reaches; vm_cast_no_check (eq_refl true). Qed.
+
+(* thread-modular: the call is parked with a deadline change pending although another caller has
+   just taken the data / window token (resp. a queued session): what the others do cannot hide it *)
+Lemma ex_change_tm : forall c, reaches (sys_tm skel c false) (ex_change_pending_all (sys_tm skel c false)).
+Proof. intros []; apply found_reaches; vm_cast_no_check (eq_refl true). Qed.
